@@ -27,6 +27,7 @@ def run(ctx):
     r165(ctx, api)
     r166(ctx, ut)
     from . import c14
+    r168(ctx, wr)
     c14.r145(ctx, 'R16.7')
     from . import callsigs as _cs
     _cs.general_rules(ctx, 'R16', ['writer.write', 'writer.update_file_custom_metadata', 'util.update_custom_metadata', 'writer.write_simple', 'writer.write_multi', 'writer.write_common_metadata', 'writer.consolidate_categories'])
@@ -321,3 +322,30 @@ def r166(ctx, ut):
     ctx.ob('R16.6', 'util.update_custom_metadata:None-is-the-only-removal-sentinel', not bad,
            'tests on value that are not `is None` / `is not None`: %s (an empty string is a value, not a removal)' % (bad or 'none'),
            ut.loc(g))
+
+
+def r168(ctx, wr, rule='R16.8'):
+    """update_file_custom_metadata: once the in-memory update has run, every normal path writes the footer back - an
+    early exit (e.g. "nothing left to store") leaves the removed keys in the file.  And: keys of key-value entries are
+    arbitrary bytes; a comparison that decodes them must tolerate undecodable ones (ignore_error=True)"""
+    f = wr.func('update_file_custom_metadata')
+    cfg = CFG(f)
+    upd = [st for st in iter_child_stmts(f.body) if isinstance(st, ast.Expr) and callee(st.value) == 'update_custom_metadata']
+    wrt = [st for st in iter_child_stmts(f.body) if any(isinstance(c, ast.Call) and callee(c) == 'write_thrift' for c in ast.walk(st))
+           and not isinstance(st, (ast.With, ast.If, ast.For, ast.Try))]
+    ok = len(upd) == 1 and len(wrt) == 1 and cfg.must_pass_to_exit(cfg.node_of(upd[0]), {cfg.node_of(wrt[0])})
+    ctx.ob(rule, 'writer.update_file_custom_metadata:footer-rewritten-on-every-path-after-the-update', bool(ok),
+           'a return between update_custom_metadata(...) and write_thrift(...) skips the rewrite', wr.loc(f))
+    n = 0
+    for mname in ('writer', 'util', 'api'):
+        m = ctx.repo[mname]
+        for q, g in m.funcs.items():
+            for c in walk_no_nested(g):
+                if isinstance(c, ast.Call) and callee(c) == 'ensure_str' and c.args and isinstance(c.args[0], ast.Attribute) \
+                        and c.args[0].attr in ('key', 'value'):
+                    n += 1
+                    kw = kwarg(c, 'ignore_error', 1)
+                    ctx.ob(rule, '%s.%s:key-value-text-decoded-tolerantly:%s' % (mname, q, norm(c)[:40]),
+                           isinstance(kw, ast.Constant) and kw.value is True,
+                           '`%s`: user keys and values are arbitrary bytes; a strict decode raises on the first non-UTF-8 one' % norm(c), m.loc(c))
+    ctx.floor(rule, 'decodes of key-value text', n, 2)
